@@ -4,7 +4,7 @@ open Lean NiftyVerif.Proto NiftyVerif.CrashFS NiftyVerif.CrashCl
 
 /-!
 ops:
- {"op":"ops","proto":"repaired"|"asFound","strategy":"all"|"latest","total":3,"nsamp":2,"resume":false}
+ {"op":"ops","proto":"repaired"|"atomicOnly"|"asFound","strategy":"all"|"latest","total":3,"nsamp":2,"resume":false}
      -> {"coarse":[…],"fine":N}      file operations of an uninterrupted run from an empty directory
  {"op":"sim","proto":…,"strategy":…,"total":3,"nsamp":2,"r0":false,"kills":[k1,…]}
      -> {"stages":[{"nops","pos","files","coarse","outcome"}…],"final":{"outcome":"ok:<state>"|"error:<kind>","coarse","files"}}
@@ -27,7 +27,8 @@ def pname : Path → String
 
 def protoOf? (j : Json) : Option Proto :=
   match fStr? j "proto" with
-  | some "repaired" => some .repaired | some "asFound" => some .asFound | _ => none
+  | some "repaired" => some .repaired | some "atomicOnly" => some .atomicOnly | some "asFound" => some .asFound
+  | _ => none
 
 def stratOf? (j : Json) : Option Strategy :=
   match fStr? j "strategy" with
@@ -57,6 +58,7 @@ def coarseFS (nsamp : Nat) : FS Path → List (Op Path) → List String
         let cond : Bool := match p with
           | .sample _ k => decide (k < nsamp)
           | .mean _ => true
+          | .marker => true          -- _invalidate_last_finished_iteration: `if isfile(...): remove(...)`
           | _ => false
         if (fs p).isSome then ("remove " ++ pname p) :: r
         else if cond then r else ("remove-missing " ++ pname p) :: r
